@@ -93,7 +93,7 @@ type ContractFile struct {
 	NClauses int
 }
 
-var keywordRe = regexp.MustCompile(`^(func|extern|spec|pred|lemma|axiom|requires|ensures|invariant|decreases|loop|modifies|assert|trusted|vars|assume|call|exec|conclude|order|elems|recv|wf|less|key)\b`)
+var keywordRe = regexp.MustCompile(`^(func|extern|spec|pred|lemma|axiom|requires|ensures|invariant|decreases|loop|modifies|assert|trusted|vars|assume|call|exec|conclude|use|let|order|elems|recv|wf|less|key)\b`)
 var labelRe = regexp.MustCompile(`^([A-Za-z_][A-Za-z0-9_.]*):([^:].*)$`)
 
 func ParseContractFile(path, pkg string) (*ContractFile, error) {
@@ -387,6 +387,24 @@ func ParseContractFile(path, pkg string) (*ContractFile, error) {
 				}
 				curLemma.Vars = append(curLemma.Vars, QVar{Name: f[0], T: te})
 			}
+		case "let":
+			if curLemma == nil {
+				return nil, fmt.Errorf("%s:%d: let outside lemma", path, it.line)
+			}
+			k := strings.Index(rest, ":=")
+			if k < 0 {
+				return nil, fmt.Errorf("%s:%d: let needs :=", path, it.line)
+			}
+			e, err := ParseExpr(strings.TrimSpace(rest[k+2:]))
+			if err != nil {
+				return nil, fmt.Errorf("%s:%d: %v", path, it.line, err)
+			}
+			curLemma.Steps = append(curLemma.Steps, &LemmaStep{Kind: "let", Results: []string{strings.TrimSpace(rest[:k])}, E: e, Text: rest, Line: it.line})
+		case "use":
+			if curLemma == nil {
+				return nil, fmt.Errorf("%s:%d: use outside lemma", path, it.line)
+			}
+			curLemma.Steps = append(curLemma.Steps, &LemmaStep{Kind: "use", Callee: strings.TrimSpace(rest), Text: rest, Line: it.line})
 		case "assume", "conclude":
 			if curLemma == nil {
 				return nil, fmt.Errorf("%s:%d: %s outside lemma", path, it.line, kw)
